@@ -5,7 +5,7 @@ package main
 
 func init() {
 	register("C01", "Decided: register / no-operand / condition-code / hand-written-form tables against the SDM, prefix predicates, mode configuration of every operand object, immediate width provenance, prefix independence from immediate magnitude, emission-time mode. Not decided: that form selection picks the right form for a concrete operand combination.",
-		ruleT1, ruleT1e, ruleT2, ruleT3, ruleT4d, ruleT5, ruleF8size, ruleP3, ruleF1, ruleF7, ruleE5, ruleI1, ruleI1s, ruleE1, ruleE1b, ruleE3, ruleE3s, ruleT18acc, ruleS66, ruleM7, ruleT5u, ruleU8p, ruleT6)
+		ruleT1, ruleT1e, ruleT2, ruleT3, ruleT4d, ruleT5, ruleF8size, ruleP3, ruleF1, ruleF7, ruleE5, ruleI1, ruleI1s, ruleE1, ruleE1b, ruleE3, ruleE3s, ruleT18acc, ruleS66, ruleM7, ruleT5u, ruleU8p, ruleT6, ruleH7k)
 	register("C02", "Decided: ModR/M and SIB tables, special cases, displacement thresholds, SIB presence, consumption of every parsed address component, operator handling in the operand grammar, 67h predicate, agreement of the pass-1 displacement/SIB sizing. Not decided: the path-sensitive composition of the calculator's branches.",
 		ruleT6, ruleQ2, ruleE8, ruleG2, ruleT1, ruleT1e, ruleI1, ruleP3, ruleZ3, ruleZ3b, ruleD2, ruleK18p, ruleF8size, ruleM2, ruleE1, ruleE1b, ruleE3, ruleE3s)
 	register("C03", "Decided: advance-iff-emit on every handler path, constant size rules vs emitter lengths, size-model terms and prefix predicates, data-directive lockstep, label/$ = LOC, pass-2 hand-over. Not decided: equality of the two size computations on every operand value.",
@@ -17,11 +17,11 @@ func init() {
 	register("C06", "Decided: precedence layering of the grammar, operator table of the evaluator, literal bases. Not decided: 64-bit overflow semantics.",
 		ruleT7, ruleT7b, ruleT10Expr, ruleG2, ruleE3, ruleE3s, ruleR6, ruleI1t, ruleI1, ruleK6, ruleZ3b, ruleD13z, ruleT7h, ruleE10, ruleO6, ruleG6p)
 	register("C07", "Decided: every handler return emits, delegates or diagnoses at >= warning (level decided from colog's own table plus the CLI's AddHeader calls); Emit failures are never lost; data-directive clauses; code-generation handlers.",
-		ruleT11, ruleE7, ruleP2, ruleP2g, ruleP2b, ruleP2c, ruleU7, ruleT4d, ruleM7, ruleE7d, ruleP7, ruleD13z, ruleE7e, ruleT6, ruleL19)
+		ruleT11, ruleE7, ruleP2, ruleP2g, ruleP2b, ruleP2c, ruleU7, ruleT4d, ruleM7, ruleE7d, ruleP7, ruleD13z, ruleE7e, ruleT6, ruleL19, ruleH7k)
 	register("C08", "Decided: record layouts and constants, capture-then-write ordering, symbol/aux counts, string table. Not decided: acceptance by an independent COFF reader.",
 		ruleT8, ruleP4, ruleS15, ruleE1, ruleE1b, ruleN8, ruleBoundedCopy, ruleP6)
 	register("C09", "Decided: same code in both formats, membership-tested symbol lists, stable name-blind ordering, inline-name threshold, bounded name copies.",
-		ruleE9, ruleSymSort, ruleS9c, ruleF4, ruleBoundedCopy, ruleT8, ruleS15, ruleW3, ruleN5, ruleE1, ruleE1b, ruleC9cfg, ruleR9)
+		ruleE9, ruleSymSort, ruleS9c, ruleF4, ruleBoundedCopy, ruleT8, ruleS15, ruleW3, ruleN5, ruleE1, ruleE1b, ruleC9cfg, ruleR9, ruleS9p)
 	register("C10", "Decided: no post-init writes of package-level state, no map iteration / clock / random / environment / goroutines reachable from an assembly, truncating output, single image write. Third-party packages are trusted.",
 		ruleE1, ruleE1b, ruleE1c, ruleE2, ruleE3, ruleE3s, ruleP6, ruleF2, ruleEmitLoop)
 	register("C11", "Decided: the EQU clause stores the evaluated body under the identifier's own text and emits nothing; handlers get evaluated operands; lookups are re-evaluated at the use site. Not decided: equivalence with textual inlining for bodies containing `$`.",
